@@ -246,12 +246,14 @@ theorem gateway_vs_export_sound (m : Mesh) (vss : List VS) (cfgNs gw : String) (
 def DelegateVisible (m : Mesh) (d : VS) (rootNs : String) : Prop := "*" ∈ vsExport m d ∨ rootNs ∈ vsExport m d
 
 /-- **delegate_export_sound**: every http route of a merged root VirtualService is one of its own
-    (non-delegating) routes, or a route of a delegate VirtualService (no hosts) of the store that is
-    exported to the root's namespace; a delegate that is not exported to the root contributes nothing. -/
+    (non-delegating) routes, or (the destinations of) a route of a delegate VirtualService (no hosts) of the store that is
+    exported to the root's namespace (with its short names resolved in the delegate's namespace); a
+    delegate that is not exported to the root contributes nothing. -/
 theorem delegate_export_sound (m : Mesh) (all : List VS) (root : VS) :
     ∀ r ∈ mergedHttp m all root,
       (r ∈ root.http ∧ r.delegate = none) ∨
-      ∃ d ∈ all, d.hosts = [] ∧ DelegateVisible m d root.ns ∧ r ∈ d.http := by
+      ∃ d ∈ all, d.hosts = [] ∧ DelegateVisible m d root.ns ∧
+        ∃ r0 ∈ (resolveVSNames d).http, r.dests = r0.dests ∧ r.delegate = r0.delegate := by
   intro r hr
   simp only [mergedHttp, List.mem_flatMap] at hr
   obtain ⟨r0, hr0, hin⟩ := hr
@@ -269,9 +271,68 @@ theorem delegate_export_sound (m : Mesh) (all : List VS) (root : VS) :
         have hm := List.mem_of_find?_eq_some hf
         have hp := List.find?_some hf
         simp only [Bool.and_eq_true, List.isEmpty_iff] at hp
-        refine Or.inr ⟨d, hm, hp.1.1, ?_, hin⟩
-        unfold delegateVisible at hv
-        simpa [DelegateVisible, Bool.or_eq_true, List.contains_iff_mem] using hv
+        simp only [mergeDelegateRoutes, List.mem_filterMap] at hin
+        obtain ⟨r1, hr1, hmr⟩ := hin
+        refine Or.inr ⟨d, hm, hp.1.1, ?_, r1, hr1, ?_⟩
+        · unfold delegateVisible at hv
+          simpa [DelegateVisible, Bool.or_eq_true, List.contains_iff_mem] using hv
+        · cases hq : mergeSrcNs r0.srcNs r1.srcNs with
+          | none => simp [hq] at hmr
+          | some srcs => simp only [hq, Option.some.injEq] at hmr; subst hmr; exact ⟨rfl, rfl⟩
       · simp at hin
+
+
+/-! ### Delegation: the merged match (`mergeHTTPMatchRequests` / `hasConflict` on `sourceNamespace`) -/
+
+/-- a list of source-namespace matches lets a proxy of namespace `ns` use the route (no match = any) -/
+def Admits (srcs : List String) (ns : String) : Prop := srcs = [] ∨ "" ∈ srcs ∨ ns ∈ srcs
+
+/-- A delegate route merged under a delegating root route applies to a source namespace only if both
+    the root route's match and the delegate route's match admit that namespace: delegation cannot widen
+    the set of proxies a route (and so its destinations) reaches. -/
+theorem mergeSrcNs_sound (root dlg out : List String) (ns : String)
+    (h : mergeSrcNs root dlg = some out) (ha : Admits out ns) : Admits root ns ∧ Admits dlg ns := by
+  unfold mergeSrcNs at h
+  by_cases hr : root.isEmpty = true
+  · simp only [hr, if_true, Option.some.injEq] at h
+    subst h
+    exact ⟨Or.inl (List.isEmpty_iff.mp hr), ha⟩
+  · simp only [hr, Bool.false_eq_true, if_false] at h
+    by_cases hd : dlg.isEmpty = true
+    · simp only [hd, if_true, Option.some.injEq] at h
+      subst h
+      exact ⟨ha, Or.inl (List.isEmpty_iff.mp hd)⟩
+    · simp only [hd, Bool.false_eq_true, if_false] at h
+      split at h
+      · cases h
+      · split at h
+        · cases h
+        · rename_i _ hne
+          simp only [Option.some.injEq] at h
+          subst h
+          have key : ∀ x, x ∈ (dlg.map fun d => (root.filter fun r => r == "" || d == r).map fun _ => d).flatMap id →
+              x ∈ dlg ∧ ∃ r ∈ root, r = "" ∨ x = r := by
+            intro x hx
+            simp only [List.mem_flatMap, List.mem_map, id] at hx
+            obtain ⟨l, ⟨d, hdm, rfl⟩, hx⟩ := hx
+            simp only [List.mem_map, List.mem_filter, Bool.or_eq_true, beq_iff_eq] at hx
+            obtain ⟨r, ⟨hrm, hc⟩, rfl⟩ := hx
+            exact ⟨hdm, r, hrm, hc⟩
+          rcases ha with he | he | he
+          · exact absurd (by simp [he]) hne
+          · obtain ⟨hd', r, hrm, hc⟩ := key _ he
+            refine ⟨Or.inr (Or.inl ?_), Or.inr (Or.inl hd')⟩
+            rcases hc with rfl | rfl <;> exact hrm
+          · obtain ⟨hd', r, hrm, hc⟩ := key _ he
+            refine ⟨?_, Or.inr (Or.inr hd')⟩
+            rcases hc with rfl | rfl
+            · exact Or.inr (Or.inl hrm)
+            · exact Or.inr (Or.inr hrm)
+
+example : mergeSrcNs ["ns1"] ["ns2"] = none := by decide
+example : mergeSrcNs ["ns1", ""] ["ns2"] = some ["ns2"] := by decide
+example : mergeSrcNs ["ns1"] ["ns1", "ns2"] = none := by decide
+example : mergeSrcNs [] ["ns2"] = some ["ns2"] := by decide
+example : mergeSrcNs ["ns1"] [] = some ["ns1"] := by decide
 
 end IstioModel.C07
